@@ -118,6 +118,15 @@ class Ctx:
                 known = v.known if isinstance(v, StrV) else None
                 ne = bool(known) or (isinstance(v, StrV) and v.oid is not None and bool(st_.vn.get(('nonempty', v.oid))))
                 sends.append(dict(func=fr.func, ord=call_ord(fr.func, bi, '::send'), arg=repr(v), known=known, nonempty=ne, span=t['span']))
+            elif kind == 'decode':
+                callee, args, t = a
+                st_.log(('decode', callee, tuple(args), fr.func, t['span'].get('line')))
+            elif kind == 'decoder-new':
+                callee, args, t = a
+                st_.log(('decoder-new', callee, fr.func, t['span'].get('line')))
+            elif kind == 'call':
+                callee, args, t = a
+                st_.log(('localcall', callee, tuple(args), fr.func, t['span'].get('line')))
             return None
 
         def event_hook(c, ev):
